@@ -36,6 +36,9 @@ func scenarios(tier string) []vlib.Scenario {
 	add(params{W: "W8-failure-four-streams", F: 0, P: 1})
 	add(params{W: "W9-opens-during-outage", F: 1, P: 0})
 	add(params{W: "W9-opens-during-outage", F: 1, P: 1})
+	// a metadata item queued before an outage is read after (or while) the stream resumes
+	add(params{W: "W11-metadata-across-resume", F: 0, P: 0})
+	add(params{W: "W11-metadata-across-resume", F: 0, P: 1})
 	// the link ends right behind an open or close response: the wire connection winds down while the response is processed
 	add(params{W: "W10-link-ends-behind-response", F: 1, P: 0})
 	add(params{W: "W10-link-ends-behind-response", F: 1, P: 1})
@@ -140,7 +143,7 @@ func (w *world) connWorkload() {
 	}
 	w.Phase = "traffic"
 	switch {
-	case strings.HasPrefix(w.p.W, "W1"):
+	case strings.HasPrefix(w.p.W, "W1-"):
 		spawn("h:writer", func() {
 			for i := 0; i < 3; i++ {
 				up.Write(ctx, kit.IDA, fmt.Sprint(i))
@@ -248,6 +251,27 @@ func (w *world) connWorkload() {
 		})
 		vsched.Sleep(90*time.Millisecond, "h:cut")
 		w.B.Cut(w.B.Live())
+	case strings.HasPrefix(w.p.W, "W11"):
+		down, _ := w.OpenDown(ctx, "d0", kit.Filter("src"), iscp.WithDownstreamQoS(message.QoSReliable))
+		if down != nil && len(w.B.Downs) > 0 {
+			for i := 0; i < 2; i++ {
+				w.B.Send(w.B.Live(), &message.DownstreamMetadata{RequestID: message.RequestID(7001 + 2*i), StreamIDAlias: w.B.Downs[0].Alias, SourceNodeID: "src", Metadata: &message.BaseTime{SessionID: "s", Name: fmt.Sprint("m", i)}})
+			}
+			vsched.Quiesce()
+			w.B.Cut(w.B.Live())
+			spawn("h:metareader", func() {
+				for i := 0; i < 2; i++ {
+					rctx, rcancel := kit.Ctx(3 * time.Second)
+					down.D.ReadMetadata(rctx)
+					rcancel()
+					vsched.Sleep(2*time.Second, "h:between-reads")
+				}
+			})
+			spawn("h:stater", func() {
+				vsched.Sleep(1500*time.Millisecond, "h:state")
+				down.D.State()
+			})
+		}
 	case strings.HasPrefix(w.p.W, "W10"):
 		down, _ := w.OpenDown(ctx, "d0", kit.Filter("src"), iscp.WithDownstreamQoS(message.QoSReliable))
 		spawn("h:openup", func() {
